@@ -159,7 +159,10 @@ func TestWorker(t *testing.T) {
 				_ = os.Rename(job.Marker+".plan.tmp", job.Marker+".plan")
 			}
 		}
-		expired := func() bool { return job.DeadlineMs > 0 && time.Now().UnixMilli() >= job.DeadlineMs }
+		nruns := 0
+		expired := func() bool {
+			return (job.DeadlineMs > 0 && time.Now().UnixMilli() >= job.DeadlineMs) || (job.MaxRuns > 0 && nruns >= job.MaxRuns)
+		}
 		nb := 0
 		for b := job.First; !expired(); b += stride {
 			seed := RunSeed(job.BatchSeed, job.Property+"/enum", b)
@@ -172,7 +175,8 @@ func TestWorker(t *testing.T) {
 			res0 := eng.exec(t, base, known, false)
 			if skip == 0 {
 				res0.Probes["enum-base-scenarios"]++
-				account(b, base, res0, false)
+				account(b*100000, base, res0, job.Samples > 0)
+				nruns++
 			}
 			if res0.Violation != nil || len(res0.Known) > 0 {
 				continue
@@ -188,7 +192,8 @@ func TestWorker(t *testing.T) {
 				markVar(b, j+1, v)
 				res := eng.exec(t, v, known, false)
 				res.Probes["enum-placements"]++
-				account(b, v, res, false)
+				account(b*100000+j+1, v, res, job.Samples > 0)
+				nruns++
 			}
 			if !expired() {
 				agg.Probes["enum-base-scenarios-completed"]++
